@@ -60,6 +60,12 @@ pub fn replay(cases: &str, verdicts: &str) {
                 let gc = guard(|| trapz(|_| 2.0, a, b, n));
                 v.check(match (g, g3, gc) { (Some(x), Some(y), Some(z)) => (y - (3.0 * x + z)).abs() <= 4.0 * sc.max((b - a).abs() * 2.0) * 2f64.powi(-40), _ => false }, "trapz linear", &class, &c, json!({"f": g, "3f+2": g3, "2": gc}));
             }
+            "romberg_deep" => {
+                let nmax = c["nmax"].as_u64().unwrap() as usize;
+                let exact = num(&c["exact"]);
+                let g = guard(|| romberg(&f, a, b, 0.0, nmax));
+                v.check(g.map(|g| g.is_finite() && (g - exact).abs() <= sc * 2f64.powi(-36)).unwrap_or(false), "romberg", &format!("deg{} {} eps=0 deep-budget{}", deg, ends, if nmax >= 17 { ">=17" } else { "<17" }), &c, json!({"got": g, "exact": exact}));
+            }
             "romberg" => {
                 let eps = num(&c["eps"]);
                 let nmax = c["nmax"].as_u64().unwrap() as usize;
